@@ -423,7 +423,22 @@ def make_cases(ctx, rd, main):
             keys = synth.ALL_KEYS
         else:
             keys, system = SYSTEM_KEYS[tk], tk
-        ds = synth.make_dataset(rng, nv=nv, keys=keys)
+        # the static table carries its own volume list: the phonon file's, other points (same / other count), any row order
+        tv = ["same", "shifted", "more", "fewer"][(i // 2) % 4] if tk != "none" else "same"
+        ds = synth.make_dataset(rng, nv=nv, keys=keys, table_volumes=tv)
+        ro = ["as-listed", "reversed", "as-listed", "shuffled"][i % 4] if tk != "none" else "as-listed"
+        if ro != "as-listed":
+            el = ds["elast"]
+            perm = list(range(len(el["volumes"])))
+            if ro == "reversed":
+                perm.reverse()
+            else:
+                rng.shuffle(perm)
+            el["volumes"] = [el["volumes"][k] for k in perm]
+            el["rows"] = [el["rows"][k] for k in perm]
+            if el["lattice"]:
+                el["lattice"] = [el["lattice"][k] for k in perm]
+        ctx.count("static table volumes: %s, rows %s" % (tv, ro))
         d = rd / ("case%03d" % i)
         d.mkdir()
         synth.write_qha(d / "input01", ds["qha"])
